@@ -282,7 +282,7 @@ def write_replay(prop, payload):
 def finish(run, search=None):
     """verdict (DESIGN §5), evidence file, exit code"""
     prop = run.prop
-    known = load_known()
+    known = load_known_all()
     exit_code = 0
     lines = []
     hit = {}
@@ -432,3 +432,71 @@ def main(mod, argv):
         traceback.print_exc()
         print('TOOL-FAILURE property=%s (exit 2, not a verdict)' % mod.PROP)
         return 2
+
+
+# --------------------------------------------------------------------------- utilities for per-property modules
+
+def load_known_all():
+    """known_findings.json plus per-property fragments known_findings.d/*.json (merged view)"""
+    out = list(load_known())
+    d = os.path.join(VERIF, 'known_findings.d')
+    if os.path.isdir(d):
+        for fn in sorted(os.listdir(d)):
+            if fn.endswith('.json'):
+                with open(os.path.join(d, fn)) as f:
+                    out += json.load(f).get('findings', [])
+    return out
+
+
+def shrink_list(items, still_fails, max_rounds=200):
+    """delta-debugging on a list: smallest sub-list (order kept) for which still_fails(sub) is True"""
+    items = list(items)
+    n = 2
+    rounds = 0
+    while len(items) >= 2 and rounds < max_rounds:
+        rounds += 1
+        chunk = max(1, len(items) // n)
+        reduced = False
+        for i in range(0, len(items), chunk):
+            cand = items[:i] + items[i + chunk:]
+            if cand and still_fails(cand):
+                items = cand
+                n = max(n - 1, 2)
+                reduced = True
+                break
+        if not reduced:
+            if chunk == 1:
+                break
+            n = min(n * 2, len(items))
+    return items
+
+
+def pmap(func, items, procs=None, chunksize=8):
+    """order-preserving parallel map over picklable items with a fork pool (func must be module-level)"""
+    import multiprocessing as mp
+    procs = procs or min(12, os.cpu_count() or 4)
+    if procs <= 1 or len(items) < 2 * procs:
+        return [func(x) for x in items]
+    ctx = mp.get_context('fork')
+    with ctx.Pool(procs) as pool:
+        return pool.map(func, items, chunksize)
+
+
+def exc_json(e):
+    """canonical outcome for an exception raised by the real code: class name (+ CIM status), never message text"""
+    try:
+        import pywbem
+        if isinstance(e, pywbem.CIMError):
+            return {'exc': 'CIMError', 'code': e.status_code}
+    except Exception:
+        pass
+    return {'exc': type(e).__name__}
+
+
+def cps(s):
+    """python str -> list of code points (how strings travel on the line protocol)"""
+    return [ord(c) for c in s]
+
+
+def from_cps(a):
+    return ''.join(chr(c) for c in a)
